@@ -92,6 +92,12 @@ class Report:
                 return 'undecided'
             replay_data = dict(replay_data, obligation=oid, note='no failing input found: the obligation is refuted by the '
                                'solver but the model did not replay on the real code')
+        seen = self.__dict__.setdefault('_seen_viol', {})
+        if (module, key) in seen:
+            seen[(module, key)] += 1          # the same finding met again: one VIOLATION line per distinct finding
+            self.add(oid, 'refuted', detail=key)
+            return 'violation'
+        seen[(module, key)] = 1
         path = write_replay(self.prop, oid, dict(replay_data, property=self.prop, module=module, key=key, what=what))
         self.violations.append((key, what, path, reproduced))
         self.add(oid, 'refuted', detail=key)
